@@ -931,7 +931,7 @@ func (l *lexer) decodeUnicode() rune {
 			rr = merge(rr, si)
 		}
 
-		if c != '}' {
+		if c != '}' || rr > unicode.MaxRune {
 			l.Error("invalid Unicode escape sequence")
 			return stopTok
 		}
